@@ -159,14 +159,27 @@ def envGet (e : Nat) (name : String) : M (Option Obj) := do
     | some _ => makeRef e name
 
 /-- `(*Environment).noteLocal`: a function stored in a binding of a non top level frame -/
-def noteLocal (f : Frame) (val : Obj) : Bool := f.localFunc || (decide (f.depth > 0) && isFuncObj val)
+def noteLocal (f : Frame) (val : Obj) (rootFn : Bool) : Bool :=
+  f.localFunc || (decide (f.depth > 0) && (isFuncObj val || rootFn))
+
+/-- the top level (depth 0) frame binds `name` to a function (`rootOf().store[name]` is a FUNC) -/
+def rootFnOf (st : St) (name : String) : Bool :=
+  match st.frames[st.root]? with
+  | some rf =>
+    (match lookupStore rf.store name with
+     | some o => isFuncObj o && rf.depth == 0
+     | none => false)
+  | none => false
+
+def rootBindsFunc (name : String) : M Bool := do pure (rootFnOf (← get) name)
 
 /-- `(*Environment).create` -/
 def envCreate (e : Nat) (name : String) (val : Obj) : M Obj := do
   let val ← valueOf val
+  let rb ← rootBindsFunc name
   modifyFrame e fun f =>
     { f with store := setStore f.store name val, numSet := if f.depth == 0 then f.numSet + 1 else f.numSet,
-             localFunc := noteLocal f val }
+             localFunc := noteLocal f val rb }
   pure val
 
 /-- `(*Environment).functionChanged`: `old` is the previous value of a binding about to be overwritten or deleted.
@@ -186,9 +199,10 @@ binding that is overwritten (the target of the reference when the name was bound
 def envStoreAt (writer e : Nat) (name : String) (val : Obj) : M Obj := do
   let fr ← getFrame e
   functionChanged writer (lookupStore fr.store name)
+  let rb ← rootBindsFunc name
   modifyFrame e fun f =>
     { f with store := setStore f.store name val, numSet := if f.depth == 0 then f.numSet + 1 else f.numSet,
-             localFunc := noteLocal f val }
+             localFunc := noteLocal f val rb }
   pure val
 
 /-- the binding `update` writes: the target of the reference when the name is bound to one -/
@@ -215,7 +229,8 @@ def setNoChecks (e : Nat) (name : String) (val : Obj) (create : Bool) : M Obj :=
       let v ← valueOf val
       let fr ← getFrame re
       functionChanged e (lookupStore fr.store rn)
-      modifyFrame re fun f => { f with store := setStore f.store rn v, localFunc := noteLocal f v }
+      let rb ← rootBindsFunc rn
+      modifyFrame re fun f => { f with store := setStore f.store rn v, localFunc := noteLocal f v rb }
       pure val
     | _ => envCreate e name val
 
